@@ -328,6 +328,29 @@ class SqliteQueue(SqliteDLQMixin, Queue):
         self._pending.clear()
         logger.debug("Cleared queue")
 
+    def has_pending_message_for_stage(self, stage_id: str) -> bool:
+        """Check if there's already a pending message that targets a specific stage.
+
+        Used by recovery to avoid starting a stage for which a message (e.g.
+        the SkipStage of an OR-split, or its StartStage) is already queued.
+
+        Args:
+            stage_id: The stage ID to check for
+
+        Returns:
+            True if a pending message exists for this stage
+        """
+        conn = self._get_connection()
+        result = conn.execute(
+            f"""
+            SELECT 1 FROM {self.table_name}
+            WHERE json_extract(payload, '$.stage_id') = :stage_id
+            LIMIT 1
+            """,
+            {"stage_id": stage_id},
+        )
+        return result.fetchone() is not None
+
     def has_pending_message_for_task(self, task_id: str) -> bool:
         """Check if there's already a pending message for a specific task.
 
